@@ -1,5 +1,6 @@
 import Shovel.Props.Insert
 import Shovel.Props.WorldProgress
+import Shovel.Props.WorldConverge
 /-
   Composition of the layers (C01 end to end): the World model (Converge / load / insert / update over
   the database, `Model/World.lean`) treats "the rows block b projects" as a field of the block; the
@@ -189,6 +190,109 @@ theorem system_table_exact (t : Task) (refs : Refs) (d : Decl) (ty : Ty) (mode :
   funext sb
   simp [rowsFor, toBlk, tableRows, List.map_map, Function.comp_def]
 
+/-- the projection of a stretch of the chain, in terms of the specified rows of its blocks -/
+theorem slice_chainOf (t : Task) (refs : Refs) (d : Decl) (ty : Ty) (mode : Mode) (base : Ctx)
+    (key pay : List DVal → String) (sbs : List SBlock) (a n : Nat) :
+    ((chainOf refs d ty mode base key pay sbs).slice a n).flatMap (rowsFor t) =
+      ((sbs.drop a).take n).flatMap (tableRows t refs d ty mode base key pay) := by
+  show (((sbs.map (toBlk refs d ty mode base key pay)).drop a).take n).flatMap (rowsFor t) = _
+  rw [← List.map_drop, ← List.map_take, List.flatMap_map]
+  congr 1
+  funext sb
+  simp [rowsFor, toBlk, tableRows, List.map_map, Function.comp_def]
+
+/-- **system_after_reorg** (C03 end to end).  `sbs` is the NEW canonical chain; the database holds
+    positions and rows written on the old one: recorded positions up to `g` are blocks of the new chain
+    (the fork is above `g`), the positions above `g` (at most 1000) are orphaned, the rows up to `g` are the
+    specified rows of the new chain's blocks (they are common to both).  After the unwinding step and
+    `head − (start − 1)` or more healthy steps: the position is the new head, and the table is EXACTLY the
+    specified rows of the new chain's blocks `start..head` — the rows of the common blocks untouched,
+    the orphaned rows gone, the rows of the replacing blocks present once. -/
+theorem system_after_reorg (t : Task) (refs : Refs) (d : Decl) (ty : Ty) (mode : Mode) (base : Ctx)
+    (key pay : List DVal → String) (sbs : List SBlock) (db : DB) (sc : Script) (g : Cur)
+    (hc : (chainOf refs d ty mode base key pay sbs).WF)
+    (hsc : ScriptOK (chainOf refs d ty mode base key pay sbs) sc) (hstart : 0 < t.start) (hb : 1 ≤ t.batch)
+    (hcc : 1 ≤ t.conc) (hcb : t.conc * t.batch < 2 ^ 63)
+    (hhead : (chainOf refs d ty mode base key pay sbs).head < 2 ^ 62) (hdeps : t.deps = []) (hstop : t.stop = 0)
+    (hnodup : ((db.cur.filter (mineC t)).map (·.num)).Nodup)
+    (hg : g ∈ db.cur.filter (mineC t))
+    (hbelow : ∀ x ∈ db.cur.filter (mineC t), x.num ≤ g.num →
+      t.start - 1 < x.num ∧ x.num ≤ (chainOf refs d ty mode base key pay sbs).head ∧
+        x.hash = (chainOf refs d ty mode base key pay sbs).hashAt x.num)
+    (habove : ∀ x ∈ db.cur.filter (mineC t), g.num < x.num →
+      x.hash ≠ (chainOf refs d ty mode base key pay sbs).hashAt x.num)
+    (hcount : ((db.cur.filter (mineC t)).filter fun x => g.num < x.num).length ≤ 1000)
+    (hrows : (db.rows.filter fun r => mine t r && decide (r.blk ≤ g.num)) =
+      ((chainOf refs d ty mode base key pay sbs).slice t.start (g.num - (t.start - 1))).flatMap (rowsFor t))
+    (hk : KeysOK t (chainOf refs d ty mode base key pay sbs)
+      { db with rows := db.rows.filter fun r => !(mine t r && decide (g.num < r.blk)) })
+    (hnone : (∀ x ∈ db.cur.filter (mineC t), x.num ≤ g.num) → ∀ r ∈ db.rows, mine t r = true → r.blk ≤ g.num)
+    (hgrow : ∀ x ∈ db.cur.filter (mineC t), x.num < (chainOf refs d ty mode base key pay sbs).head)
+    (hhonest : (∀ a ∈ sc.latest, a = some ((chainOf refs d ty mode base key pay sbs).head,
+        (chainOf refs d ty mode base key pay sbs).hashAt (chainOf refs d ty mode base key pay sbs).head)) ∧
+      (∀ p ∈ sc.hash, p.2 ≠ none) ∧ (∀ q ∈ sc.gets, q.2 ≠ none))
+    (hok : (converge t db sc none).scriptOk = true)
+    (m : Nat) (hm : (chainOf refs d ty mode base key pay sbs).head - (t.start - 1) ≤ m) :
+    let c := chainOf refs d ty mode base key pay sbs
+    let db' := run t c m (converge t db sc none).db
+    (topOf (db'.cur.filter (mineC t))).getD (t.start - 1) = c.head ∧
+    db'.rows.filter (mine t) =
+      ((sbs.drop t.start).take (c.head - (t.start - 1))).flatMap (tableRows t refs d ty mode base key pay) ∧
+    db'.rows.filter (mine t) =
+      (db.rows.filter fun r => mine t r && decide (r.blk ≤ g.num)) ++
+        ((sbs.drop (g.num + 1)).take (c.head - g.num)).flatMap (tableRows t refs d ty mode base key pay) := by
+  intro c db'
+  obtain ⟨_, _, h3, h4, h5⟩ := converges_after_reorg t c db sc g hc hsc hstart hb hcc hcb hhead hdeps hstop hnodup hg
+    hbelow habove hcount hrows hk hnone hgrow hhonest hok m hm
+  refine ⟨h3, ?_, ?_⟩
+  · rw [h4]; exact slice_chainOf t refs d ty mode base key pay sbs _ _
+  · rw [h5, slice_chainOf]
+
+/-- **system_stopped_at_stop** (C06 end to end): with a stop configured within the chain, after enough healthy
+    steps the position is exactly the stop, the table is exactly the specified rows of blocks `start..stop`,
+    and from then on every step — whatever the source answers — reports done and changes nothing -/
+theorem system_stopped_at_stop (t : Task) (refs : Refs) (d : Decl) (ty : Ty) (mode : Mode) (base : Ctx)
+    (key pay : List DVal → String) (sbs : List SBlock) (db : DB)
+    (hc : (chainOf refs d ty mode base key pay sbs).WF) (hstart : 0 < t.start) (hb : 1 ≤ t.batch)
+    (hcc : 1 ≤ t.conc) (hcb : t.conc * t.batch < 2 ^ 63)
+    (hhead : (chainOf refs d ty mode base key pay sbs).head < 2 ^ 62) (hdeps : t.deps = [])
+    (hinv : Inv t (chainOf refs d ty mode base key pay sbs) (t.start - 1) db)
+    (hk : KeysOK t (chainOf refs d ty mode base key pay sbs) db)
+    (hstop : 0 < t.stop) (hsh : t.stop ≤ (chainOf refs d ty mode base key pay sbs).head) (hss : t.start ≤ t.stop)
+    (htop : (topOf (db.cur.filter (mineC t))).getD (t.start - 1) ≤ t.stop)
+    (m : Nat) (hm : t.stop - (topOf (db.cur.filter (mineC t))).getD (t.start - 1) ≤ m) :
+    let c := chainOf refs d ty mode base key pay sbs
+    let db' := run t c m db
+    (topOf (db'.cur.filter (mineC t))).getD (t.start - 1) = t.stop ∧
+    db'.rows.filter (mine t) =
+      ((sbs.drop t.start).take (t.stop - (t.start - 1))).flatMap (tableRows t refs d ty mode base key pay) ∧
+    (∀ sc, (converge t db' sc none).outcome = .done ∧ (converge t db' sc none).db = db') := by
+  intro c db'
+  obtain ⟨_, h2, h3, h4, _⟩ := stopped_at_stop t c db hc hstart hb hcc hcb hhead hdeps hinv hk hstop hsh hss htop m hm
+  exact ⟨h2, by rw [h3]; exact slice_chainOf t refs d ty mode base key pay sbs _ _, h4⟩
+
+/-- **system_despite_faults** (C01 / C02 end to end): any finite period of steps with arbitrary honest-or-failed
+    source answers and database faults, then enough healthy steps: the position is the head and the table is
+    exactly the specified rows of blocks `start..head` -/
+theorem system_despite_faults (t : Task) (refs : Refs) (d : Decl) (ty : Ty) (mode : Mode) (base : Ctx)
+    (key pay : List DVal → String) (sbs : List SBlock) (steps : List (Script × Option Pos)) (db : DB)
+    (hc : (chainOf refs d ty mode base key pay sbs).WF) (hstart : 0 < t.start) (hb : 1 ≤ t.batch)
+    (hcc : 1 ≤ t.conc) (hcb : t.conc * t.batch < 2 ^ 63)
+    (hhead : (chainOf refs d ty mode base key pay sbs).head < 2 ^ 62) (hdeps : t.deps = [])
+    (hinv : Inv t (chainOf refs d ty mode base key pay sbs) (t.start - 1) db)
+    (hk : KeysOK t (chainOf refs d ty mode base key pay sbs) db)
+    (hall : AllOK (chainOf refs d ty mode base key pay sbs) steps) (hstop : t.stop = 0)
+    (hsh : t.start - 1 ≤ (chainOf refs d ty mode base key pay sbs).head)
+    (m : Nat) (hm : (chainOf refs d ty mode base key pay sbs).head - (t.start - 1) ≤ m) :
+    let c := chainOf refs d ty mode base key pay sbs
+    let db' := run t c m (troubled t steps db)
+    (topOf (db'.cur.filter (mineC t))).getD (t.start - 1) = c.head ∧
+    db'.rows.filter (mine t) =
+      ((sbs.drop t.start).take (c.head - (t.start - 1))).flatMap (tableRows t refs d ty mode base key pay) := by
+  intro c db'
+  obtain ⟨_, _, h3, h4⟩ := converges_despite_faults t c steps db hc hstart hb hcc hcb hhead hdeps hinv hk hall hstop hsh m hm
+  exact ⟨h3, by rw [h4]; exact slice_chainOf t refs d ty mode base key pay sbs _ _⟩
+
 /-! ### non-vacuity: a three-block chain carrying ERC-20 transfers, indexed by the `Transfer` declaration -/
 
 namespace Example
@@ -240,11 +344,82 @@ example : ((chain3.drop 1).take 2).flatMap (tableRows task [] transferId ty .log
         pay := "x00000000000000000000000000000000000000aa,1000,xa0b86991c6218b36c1d19d4a2e9eb0ce3606eb48,0,2,3,0" } ] := by
   decide +kernel
 
+/-- `system_stopped_at_stop`: the same task with stop 1 on the three-block chain -/
+example :
+    let t := { task with stop := 1 }
+    let c := chainOf [] transferId ty .log [] pay pay chain3
+    let db' := run t c 1 {}
+    (topOf (db'.cur.filter (mineC t))).getD (t.start - 1) = 1 ∧
+    db'.rows.filter (mine t) = ((chain3.drop 1).take 1).flatMap (tableRows t [] transferId ty .log [] pay pay) ∧
+    (∀ sc, (converge t db' sc none).outcome = .done ∧ (converge t db' sc none).db = db') :=
+  system_stopped_at_stop { task with stop := 1 } [] transferId ty .log [] pay pay chain3 {}
+    (Chain.wfb_sound _ (by decide +kernel)) (by decide) (by decide) (by decide) (by decide) (by decide +kernel) rfl
+    (by decide +kernel) (by decide +kernel) (by decide) (by decide +kernel) (by decide) (by decide +kernel) 1 (by decide +kernel)
+
+/-- `system_despite_faults`: the process dies at the second commit, then the connection drops at the insert,
+    then two healthy steps -/
+def periodS : List (Script × Option Pos) :=
+  [(Script.full (chainOf [] transferId ty .log [] pay pay chain3) task 0, some .commit2),
+   (Script.full (chainOf [] transferId ty .log [] pay pay chain3) task 0, some .insert)]
+
+example :
+    let c := chainOf [] transferId ty .log [] pay pay chain3
+    let db' := run task c 2 (troubled task periodS {})
+    (topOf (db'.cur.filter (mineC task))).getD (task.start - 1) = c.head ∧
+    db'.rows.filter (mine task) =
+      ((chain3.drop task.start).take (c.head - (task.start - 1))).flatMap (tableRows task [] transferId ty .log [] pay pay) :=
+  system_despite_faults task [] transferId ty .log [] pay pay chain3 periodS {}
+    (Chain.wfb_sound _ (by decide +kernel)) (by decide) (by decide) (by decide) (by decide) (by decide +kernel) rfl
+    (by decide +kernel) (by decide +kernel)
+    (by intro p hp
+        simp only [periodS, List.mem_cons, List.not_mem_nil, or_false] at hp
+        rcases hp with rfl | rfl <;> exact Script.full_scriptOK _ task 0 (by decide +kernel))
+    rfl (by decide +kernel) 2 (by decide +kernel)
+
+/-! the reorg theorem: chain of four blocks (the fourth empty), recorded positions 1 (canonical) and 2 (orphaned,
+    another hash), the row of block 1 and an orphaned row of block 2 -/
+
+def chain4 : List SBlock := chain3 ++ [{ num := 3, hash := hx '3', parent := hx '2', ab := { fields := [("block_num", .u64 3)], txs := [] } }]
+
+def c4 : Chain := chainOf [] transferId ty .log [] pay pay chain4
+
+def dbReorg : DB :=
+  { cur := [{ src := "s", ig := "i", num := 1, hash := hx '1' }, { src := "s", ig := "i", num := 2, hash := hx 'e' }],
+    rows := (tableRows task [] transferId ty .log [] pay pay (chain4.getD 1 ⟨0, "", "", ⟨[], []⟩⟩)) ++
+      [{ table := "transfers", src := "s", ig := "i", blk := 2, key := "orphan", pay := "orphan" }] }
+
+def scReorg : Script :=
+  { latest := [some (3, c4.hashAt 3), some (3, c4.hashAt 3)], hash := [],
+    gets := [((3, 1), some (c4.slice 3 1)), ((2, 1), some (c4.slice 2 1)), ((3, 1), some (c4.slice 3 1))] }
+
+/-- every hypothesis of `system_after_reorg` holds of the example; the conclusion: position 3, the table is the
+    row of block 1 (untouched) and the specified row of the NEW block 2 — the orphaned row is gone -/
+example :
+    let db' := run task c4 3 (converge task dbReorg scReorg none).db
+    (topOf (db'.cur.filter (mineC task))).getD (task.start - 1) = c4.head ∧
+    db'.rows.filter (mine task) =
+      ((chain4.drop task.start).take (c4.head - (task.start - 1))).flatMap (tableRows task [] transferId ty .log [] pay pay) ∧
+    db'.rows.filter (mine task) =
+      (dbReorg.rows.filter fun r => mine task r && decide (r.blk ≤ 1)) ++
+        ((chain4.drop 2).take (c4.head - 1)).flatMap (tableRows task [] transferId ty .log [] pay pay) :=
+  system_after_reorg task [] transferId ty .log [] pay pay chain4 dbReorg scReorg
+    { src := "s", ig := "i", num := 1, hash := hx '1' }
+    (Chain.wfb_sound _ (by decide +kernel)) (scriptOKb_sound _ _ (by decide +kernel)) (by decide) (by decide) (by decide) (by decide)
+    (by decide +kernel) rfl rfl (by decide +kernel) (by decide +kernel) (by decide +kernel) (by decide +kernel)
+    (by decide +kernel) (by decide +kernel) (by decide +kernel) (by decide +kernel) (by decide +kernel)
+    (by decide +kernel) (by decide +kernel) 3 (by decide +kernel)
+
+example : (run task c4 3 (converge task dbReorg scReorg none).db).rows.map (·.blk) = [1, 2] ∧
+    (run task c4 3 (converge task dbReorg scReorg none).db).rows.all (·.key != "orphan") := by decide +kernel
+
 end Example
 
 end Shovel.System
 
 #print axioms Shovel.System.insert_batch_flat
 #print axioms Shovel.System.system_table_exact
+#print axioms Shovel.System.system_after_reorg
+#print axioms Shovel.System.system_stopped_at_stop
+#print axioms Shovel.System.system_despite_faults
 #print axioms Shovel.System.insert_single_call
 #print axioms Shovel.System.insertChunks_cover
